@@ -29,6 +29,7 @@ let handle (toks : Stdlib.String.t list) : Stdlib.String.t =
         | ["prefix"; p] -> OPrefix (opt num p)
         | ["iname"; a] -> OIname (opt bytes_of_hex a)
         | ["interval"; d] -> OInterval (opt num d)
+        | ["other"; _] -> OOther
         | _ -> failwith ("op " ^ s) in
       let (m, code) = x_handshake (Stdlib.List.map parse_op ops) in
       (match m with Compressed -> "C " | Uncompressed -> "U ") ^ show_code code
